@@ -4,6 +4,7 @@ from vf.props.progbase import ProgProp
 
 class C17(ProgProp):
     id = "C17"
+    use_tables = True
     aspects = ("exc", "positions", "colines")
     versions = ["3.11", "3.12", "3.13"]
     rule = ("case = (3.11/3.12/3.13, program) from G-PROG / stdlib sample; oracle: parse_exception_table == "
@@ -30,6 +31,8 @@ class C17(ProgProp):
                     feats.add("no-column")
                 elif p[1] != p[0]:
                     feats.add("multi-line(long form)")
+                elif p[3] is None:
+                    feats.add("no-end-column")
                 elif p[2] >= 128 or p[3] >= 128 or (p[3] - p[2]) >= 16:
                     feats.add("wide-columns")
             lines = [p[0] for p in pos if p[0] is not None]
